@@ -745,7 +745,7 @@ impl Server {
       let charms = sat.charms();
 
       let address = if let Some(satpoint) = satpoint {
-        if satpoint.outpoint == unbound_outpoint() {
+        if satpoint.outpoint == unbound_outpoint() || satpoint.outpoint == OutPoint::null() {
           None
         } else {
           let tx = index
@@ -7340,6 +7340,36 @@ next
 "
       ),
     );
+
+    let json = server.get_json::<api::InscriptionRecursive>(format!("/r/inscription/{id}"));
+
+    assert_eq!(json.id, id);
+    assert_eq!(json.output, OutPoint::null());
+    assert_eq!(json.value, None);
+    assert_eq!(json.address, None);
+  }
+
+  #[test]
+  fn lost_sat_has_sat_page() {
+    let server = TestServer::builder()
+      .chain(Chain::Regtest)
+      .index_sats()
+      .build();
+
+    server.mine_blocks(1);
+
+    server.core.broadcast_tx(TransactionTemplate {
+      inputs: &[(1, 0, 0, Default::default())],
+      fee: 50 * COIN_VALUE,
+      ..default()
+    });
+
+    server.mine_blocks_with_subsidy(1, 0);
+
+    let sat = server.get_json::<api::Sat>(format!("/sat/{}", 50 * COIN_VALUE));
+
+    assert_eq!(sat.satpoint.unwrap().outpoint, OutPoint::null());
+    assert_eq!(sat.address, None);
   }
 
   #[test]
